@@ -171,7 +171,18 @@ class SymSeries(_RowsMixin, SymBase):
                     b = Cell(b.val, Or(b.null, Not(vb)), b.kind)
             a, b = (b, a) if reverse else (a, b)
             out.append(cell_binop(op, a, b))
-        res = self._with(col=Col.from_cells(out), name=name)
+        kind = None
+        if not out:
+            # no slots: the result kind cannot be read off the cells
+            if op in ("lt", "le", "gt", "ge", "eq", "ne"):
+                kind = "b"
+            elif op in ("and_", "or_", "xor"):
+                kind = "b" if self.col.kind == "b" else self.col.kind
+            elif op == "truediv":
+                kind = "f"
+            else:
+                kind = self.col.kind if self.col.kind != "b" else "i"
+        res = self._with(col=Col.from_cells(out, kind), name=name)
         if valid is not None:
             res = res._with(valid=valid)
         return res
@@ -866,6 +877,33 @@ class SymLabelSeries(SymBase):
     def rename(self, index=None, name=None, **kw):
         return SymLabelSeries(self.labels, self.cells_, index if index is not None else name)
 
+    def isna(self):
+        return SymLabelSeries(self.labels, [Cell(c.null, F, "b") for c in self.cells_], self.name)
+
+    isnull = isna
+
+    def notna(self):
+        return SymLabelSeries(self.labels, [Cell(Not(c.null), F, "b") for c in self.cells_], self.name)
+
+    notnull = notna
+
+    def where(self, cond, other=float("nan"), **kw):
+        if not isinstance(cond, SymLabelSeries) or cond.labels != self.labels:
+            raise Unsupported("label-series where condition")
+        oc = other.cells_ if isinstance(other, SymLabelSeries) and other.labels == self.labels else None
+        if oc is None:
+            if isinstance(other, SymBase) and not isinstance(other, SymScalar):
+                raise Unsupported("label-series where other")
+            oc = [lit_cell(other)] * len(self.labels)
+        out = []
+        for c, k, o in zip(self.cells_, cond.cells_, oc):
+            keep = k.val
+            if c.kind == "b" and o.kind == "b":
+                out.append(Cell(If(keep, c.val, o.val), If(keep, c.null, o.null), "b"))
+            else:
+                out.append(Cell(If(keep, c.num(), o.num()), If(keep, c.null, o.null), "f" if "f" in (c.kind, o.kind) else c.kind))
+        return SymLabelSeries(self.labels, out, self.name)
+
     def __repr__(self):
         return f"SymLabelSeries({self.labels})"
 
@@ -1132,9 +1170,28 @@ class SymFrame(_RowsMixin, SymBase):
         return self._map_cols(lambda s: s._bin(other, op, reverse))
 
     def where(self, cond, other=float("nan"), **kw):
-        raise Unsupported("frame where")
+        return self._where(cond, other, False)
 
-    mask = where
+    def mask(self, cond, other=float("nan"), **kw):
+        return self._where(cond, other, True)
+
+    def _where(self, cond, other, invert):
+        if not isinstance(cond, SymFrame) or cond.labels != self.labels or cond.prov != self.prov:
+            raise Unsupported("frame where/mask condition")
+        cols = []
+        for k, c in self.cols:
+            s = SymSeries(k, c, **self._row_attrs())
+            cs = SymSeries(k, cond.col(k), **self._row_attrs())
+            if isinstance(other, SymFrame):
+                if other.labels != self.labels or other.prov != self.prov:
+                    raise Unsupported("frame where other")
+                o = SymSeries(k, other.col(k), **self._row_attrs())
+            elif isinstance(other, SymBase) and not isinstance(other, SymScalar):
+                raise Unsupported("frame where other kind")
+            else:
+                o = other
+            cols.append((k, s._where(cs, o, invert).col))
+        return self._with(cols=cols)
 
     # ---- dask-only API (reference semantics: partitioning does not exist)
     def repartition(self, *a, **kw):
